@@ -239,8 +239,13 @@ impl Property for C07 {
     fn id(&self) -> &'static str {
         "C07"
     }
+    fn regimes(&self) -> &'static str {
+        // both generators are used
+        static BOTH: std::sync::OnceLock<String> = std::sync::OnceLock::new();
+        BOTH.get_or_init(|| format!("{}{}", crate::gen::REGIMES_CATALOGUE, crate::gen::REGIMES_FAMILY)).as_str()
+    }
     fn rule(&self) -> String {
-        "proptest: multi-rhs problems with S in 1..6 columns (duplicated and linearly dependent columns generated), all weight classes, seq/par, builder/hand, f32/f64; S single-column problems built with the single-rhs constructor on the same model spec; a column permutation. Differential oracle at construction, after caller updates and at every alpha of an LM run on the multi-rhs problem: column s of C, block s of r and block s of every Jacobian column equal the single-column problem's values (bitwise, else condition-aware tolerance); a one-column multi-rhs problem equals the single-rhs problem; the permuted problem's column j equals the single-column problem perm[j]. Fitted-alpha invariance under permutation: an instance of the certified families (C05's generator, S >= 2, f64) is fitted before and after permuting its observation columns; alpha_hat must agree to 1e-6 (relative) and the coefficient columns must permute. Non-trivial: S >= 2 and not all columns equal".into()
+        "proptest: multi-rhs problems with S in 1..6 columns (duplicated and linearly dependent columns generated), all weight classes, seq/par, builder/hand, f32/f64; S single-column problems built with the single-rhs constructor on the same model spec; a column permutation. Differential oracle at construction, after caller updates and at every alpha of an LM run on the multi-rhs problem: column s of C, block s of r and block s of every Jacobian column equal the single-column problem's values (bitwise, else condition-aware tolerance); a one-column multi-rhs problem equals the single-rhs problem; the permuted problem's column j equals the single-column problem perm[j]. Fitted-alpha invariance under permutation: an instance of the certified families (C05's generator, S >= 2, f64) is fitted before and after permuting its observation columns; alpha_hat must agree to 1e-6 (relative) and the coefficient columns must permute. Columns too ill-conditioned for a forward comparison are still checked for the rank decision (|c| differing by > 1e3 together with residual blocks differing by > 1e-6 means that the two problems truncate different singular values); 1/32 of the small problems get 40, 120 or 300 right-hand sides and a near collision with sigma_min within four decades above the rounding level, 1/8 get S = N+1..N+6. Non-trivial: S >= 2 and not all columns equal".into()
     }
     fn cases(&self, tier: Tier) -> usize {
         match tier {
